@@ -296,6 +296,12 @@ def eval_group_case(ctx: Ctx, case, pend):
         tsc = norm(t) if t is not None else 0.0
         lg, el, ln, li = Lf[i], ELf[i], LNf[i], LIf[i]
         ctx.count(f"group.{name}.{dtype}")
+        vn = norm(q[:3])
+        ctx.count(f"regime.SO3_Log.{1 if (vn > eps and abs(q[3]) > eps) else 2 if vn > eps else 3}.{dtype}")
+        ctx.count("hemisphere." + ("w>0" if q[3] > 0 else "w<0" if q[3] < 0 else "w=0"))
+        if name == "Sim3" and s is not None and finite(lg):
+            sl, tl = abs(math.log(s)) > eps, norm(lg[3:6]) > eps
+            ctx.count(f"regime.rxso3_Ws(Log).{(4 if tl else 3) if sl else (2 if tl else 1)}.{dtype}")
         if not (finite(lg) and finite(el) and finite(ln) and finite(li)):
             ctx.fail(small(case, i), f"nonfinite {name}: Log/Exp produced nan/inf on a valid element ({dtype})")
             continue
@@ -357,6 +363,10 @@ def eval_alg_case(ctx: Ctx, case, pend):
         th = norm(phi)
         le = LEf[i]
         ctx.count(f"alg.{name}.{dtype}")
+        ctx.count(f"regime.so3_Exp.{'closed' if th > eps else 'taylor'}.{dtype}")
+        if name == "Sim3":
+            sl, tl = abs(sig) > eps, th > eps
+            ctx.count(f"regime.rxso3_Ws(Exp).{(4 if tl else 3) if sl else (2 if tl else 1)}.{dtype}")
         ctx.count("alg.angle." + ("below-pi" if th < math.pi else "pi-or-above"))
         if not finite(le):
             ctx.fail(small(case, i), f"nonfinite {name}: Log(Exp(x)) produced nan/inf ({dtype})")
@@ -773,6 +783,11 @@ def replay(ctx: Ctx, case) -> bool:
         x = P.LieTensor(torch.tensor(c["x"], dtype=torch.float64).to(U.dt(c["dtype"])), ltype=getattr(P, U.ALG[c["type"]] + "_type"))
         print("  x            =", x.tensor().tolist())
         print("  Log(Exp(x))  =", x.Exp().Log().tensor().tolist())
+    if c["kind"] == "group":
+        for x in c["X"]:
+            qq = x[U.QSL[c["type"]]]
+            rep = ctx.driver.run([U.model_call("SO3.LogRegime", common.EPS[c["dtype"]], qq)])[0]
+            print("  model regime of SO3_Log =", int(U.fl(common.reply_nums(rep))[0]))
     for p in pend:
         rep = ctx.driver.run([U.model_call(p["op"], common.EPS[p["dtype"]], p["args"])])[0]
         print(f"  model {p['op']:14s} =", U.fl(common.reply_nums(rep)))
